@@ -116,7 +116,10 @@ fn slice_check<V: Copy, T: Fbits, const N: usize>(
 ) -> impl Fn(&[u64], &mut Tally) -> Result<(), Fail> + Sync {
     move |w: &[u64], t: &mut Tally| {
         let len = w[0] as usize;
-        let mode = w[1];
+        // window start offset in elements (0..3): slices that do NOT start on a 16-byte boundary, as sub-slices of
+        // interleaved buffers do (an aligned whole-register load / store is only legal for aligned pointers)
+        let off = (w[1] / 4) as usize % 4;
+        let mode = w[1] % 4;
         let vals: Vec<T> = (0..N + 5).map(|i| T::fb(w[2 + i])).collect();
         t.eval(1);
         t.class(if len < N { "len<N (must panic)" } else if len == N { "len==N" } else { "len>N" });
@@ -131,14 +134,16 @@ fn slice_check<V: Copy, T: Fbits, const N: usize>(
             0 | 2 => {
                 // source buffer
                 let res = if mode == 0 {
-                    let mut buf: Vec<T> = vec![T::fb(T::CANARY); len + 2 * GUARD];
+                    let g = GUARD + off;
+                    let mut buf: Vec<T> = vec![T::fb(T::CANARY); len + 2 * GUARD + off];
                     for i in 0..len {
-                        buf[GUARD + i] = vals[i % vals.len()];
+                        buf[g + i] = vals[i % vals.len()];
                     }
-                    vcore::catch(|| to_arr(&from_slice(&buf[GUARD..GUARD + len])))
+                    vcore::catch(|| to_arr(&from_slice(&buf[g..g + len])))
                 } else {
-                    let b: Box<[T]> = (0..len).map(|i| vals[i % vals.len()]).collect::<Vec<T>>().into_boxed_slice();
-                    vcore::catch(|| to_arr(&from_slice(&b[..])))
+                    // exact-size allocation; with off > 0 the slice is the tail of an allocation that ends exactly at its end
+                    let b: Box<[T]> = (0..len + off).map(|i| vals[(i + vals.len() - off) % vals.len()]).collect::<Vec<T>>().into_boxed_slice();
+                    vcore::catch(|| to_arr(&from_slice(&b[off..])))
                 };
                 match res {
                     Err(m) => {
@@ -161,12 +166,13 @@ fn slice_check<V: Copy, T: Fbits, const N: usize>(
             _ => {
                 let v = from_arr(&arr);
                 if mode == 1 {
-                    let mut buf: Vec<T> = vec![T::fb(T::CANARY); len + 2 * GUARD];
-                    let res = vcore::catch(|| write_slice(v, &mut buf[GUARD..GUARD + len]));
+                    let g = GUARD + off;
+                    let mut buf: Vec<T> = vec![T::fb(T::CANARY); len + 2 * GUARD + off];
+                    let res = vcore::catch(|| write_slice(v, &mut buf[g..g + len]));
                     // whatever happened, nothing outside the slice may change
-                    for i in (0..GUARD).chain(GUARD + len..len + 2 * GUARD) {
+                    for i in (0..g).chain(g + len..len + 2 * GUARD + off) {
                         if buf[i].tb() != T::CANARY {
-                            return Err(mk(format!("wrote outside the slice at offset {} (slice is {}..{})", i, GUARD, GUARD + len)));
+                            return Err(mk(format!("wrote outside the slice at offset {} (slice is {}..{})", i, g, g + len)));
                         }
                     }
                     match res {
@@ -174,7 +180,7 @@ fn slice_check<V: Copy, T: Fbits, const N: usize>(
                             if len >= N {
                                 return Err(mk(format!("panicked on a slice of sufficient length {len} >= {N}: {m}")));
                             }
-                            if (0..len).any(|i| buf[GUARD + i].tb() != T::CANARY) {
+                            if (0..len).any(|i| buf[g + i].tb() != T::CANARY) {
                                 t.class("partial_prefix_writes");
                             }
                         }
@@ -183,20 +189,21 @@ fn slice_check<V: Copy, T: Fbits, const N: usize>(
                                 return Err(mk(format!("did not panic on a slice of length {len} < {N}")));
                             }
                             for i in 0..N {
-                                if buf[GUARD + i].tb() != arr[i].tb() {
-                                    return Err(mk(format!("element {i}: wrote 0x{:x}, value holds 0x{:x}", buf[GUARD + i].tb(), arr[i].tb())));
+                                if buf[g + i].tb() != arr[i].tb() {
+                                    return Err(mk(format!("element {i}: wrote 0x{:x}, value holds 0x{:x}", buf[g + i].tb(), arr[i].tb())));
                                 }
                             }
                             for i in N..len {
-                                if buf[GUARD + i].tb() != T::CANARY {
+                                if buf[g + i].tb() != T::CANARY {
                                     return Err(mk(format!("element {i} beyond the first {N} was overwritten")));
                                 }
                             }
                         }
                     }
                 } else {
-                    let mut b: Box<[T]> = vec![T::fb(T::CANARY); len].into_boxed_slice();
-                    let res = vcore::catch(|| write_slice(v, &mut b[..]));
+                    let mut bb: Box<[T]> = vec![T::fb(T::CANARY); len + off].into_boxed_slice();
+                    let res = vcore::catch(|| write_slice(v, &mut bb[off..]));
+                    let b = &bb[off..];
                     match res {
                         Err(m) => {
                             if len >= N {
@@ -225,10 +232,10 @@ fn slice_check<V: Copy, T: Fbits, const N: usize>(
 fn slice_run<const N: usize>(bits: u32, check: impl Fn(&[u64], &mut Tally) -> Result<(), Fail> + Sync) -> impl Fn(&mut Env) + Sync {
     move |env: &mut Env| {
         let sp: Vec<u64> = if bits == 32 { lattice::f32_specials().iter().map(|x| *x as u64).collect() } else { lattice::f64_specials() };
-        let sets = if env.args.tier == Tier::Thorough { 64 } else { 8 };
+        let sets = if env.args.tier == Tier::Thorough { 32 } else { 4 };
         let mut n = 0u64;
         for len in 0..=N + 4 {
-            for mode in 0..4u64 {
+            for mode in 0..16u64 {
                 for k in 0..sets {
                     let mut w = vec![len as u64, mode];
                     for i in 0..N + 5 {
